@@ -447,7 +447,7 @@ def check_lang(case):
 
 # ------------------------------------------------------------------ row -----------------
 NAMES = ["a", "b", "d", "e", "f", "g"]
-Q_TRIG = ["image", "image-maxpx", "image-app", "image-app-maxpx", "subscriberid", "simserial", "sim id", "get subscriber id", "get device id", "deviceid", "phonenumber", "disabled-no", "disabled-yes", "comment"]
+Q_TRIG = ["image", "image-maxpx", "image-app", "image-app-maxpx", "subscriberid", "simserial", "sim id", "get subscriber id", "uri:simserial", "uri:subscriberid", "uri:deviceid", "get device id", "deviceid", "phonenumber", "disabled-no", "disabled-yes", "comment"]
 C_TRIG = ["nolabel", "nolabel-fieldlist", "nolabel-media", "disabled-no", "label-tablelist", "label-fieldlist", "label-custom", "nolabel-tablelist", "nolabel-custom", "label-hint"]
 
 
@@ -480,10 +480,10 @@ def build_row(forest, trig):
                     exp[("maxpx", rn)] += 1
                 elif tg == "image-app-maxpx":
                     r = {"type": "image", "name": nm, "label": nm, "parameters": "app=com.example.cam max-pixels=320"}
-                elif tg in ("subscriberid", "simserial", "sim id", "get subscriber id"):
+                elif tg in ("subscriberid", "simserial", "sim id", "get subscriber id", "uri:simserial", "uri:subscriberid"):
                     r = {"type": tg, "name": nm}
                     exp[("deprecated", rn, tg)] += 1
-                elif tg == "get device id":
+                elif tg in ("get device id", "uri:deviceid"):
                     r = {"type": tg, "name": nm}
                 elif tg in ("deviceid", "phonenumber"):
                     r = {"type": tg, "name": nm}
